@@ -1250,6 +1250,108 @@ func genFacts(p *pkgInfo, repo, out string) {
 			return true
 		})
 	}
+	// uses of the per-call parser state: for every field of internalParsedJson, the functions that mention it other than
+	// as the whole left-hand side of an assignment (reads, appends, index expressions, address-of)
+	{
+		fieldSet := map[string]bool{}
+		for _, f := range p.files {
+			ast.Inspect(f, func(n ast.Node) bool {
+				ts, ok := n.(*ast.TypeSpec)
+				if !ok || ts.Name.Name != "internalParsedJson" {
+					return true
+				}
+				if st, ok := ts.Type.(*ast.StructType); ok {
+					for _, fl := range st.Fields.List {
+						for _, nm := range fl.Names {
+							fieldSet[nm.Name] = true
+						}
+					}
+				}
+				return false
+			})
+		}
+		var fnNames []string
+		for n := range p.funcs {
+			fnNames = append(fnNames, n)
+		}
+		sort.Strings(fnNames)
+		var reads []string
+		for _, fn := range fnNames {
+			fd := p.funcs[fn]
+			if fd.Body == nil {
+				continue
+			}
+			lhs := map[ast.Expr]bool{}
+			ast.Inspect(fd.Body, func(n ast.Node) bool {
+				if as, ok := n.(*ast.AssignStmt); ok && as.Tok == token.ASSIGN {
+					for _, l := range as.Lhs {
+						lhs[l] = true
+					}
+				}
+				return true
+			})
+			seen := map[string]bool{}
+			ast.Inspect(fd.Body, func(n ast.Node) bool {
+				se, ok := n.(*ast.SelectorExpr)
+				if !ok || !fieldSet[se.Sel.Name] || lhs[se] {
+					return true
+				}
+				if id, ok := se.X.(*ast.Ident); !ok || id.Name != "pj" {
+					return true
+				}
+				key := fn + ":" + se.Sel.Name
+				if !seen[key] {
+					seen[key] = true
+					reads = append(reads, key)
+				}
+				return true
+			})
+		}
+		fmt.Fprintf(&b, "/-- (function, field) pairs: the function mentions `pj.<field>` of the per-call parser state other than as the\n    left-hand side of a plain assignment -/\ndef parserFieldUses : List String := %s\n\n", leanStrList(reads))
+		var usedFields []string
+		seenF := map[string]bool{}
+		for _, r := range reads {
+			f := r[strings.LastIndex(r, ":")+1:]
+			if !seenF[f] {
+				seenF[f] = true
+				usedFields = append(usedFields, f)
+			}
+		}
+		sort.Strings(usedFields)
+		fmt.Fprintf(&b, "/-- the fields that are used (read) somewhere -/\ndef parserFieldsUsed : List String := %s\n\n", leanStrList(usedFields))
+		// normalised source of the entry points that set up and tear down a parse (one statement per entry)
+		for _, fn := range []struct{ lean, name string }{{"srcInitialize", "internalParsedJson.initialize"}, {"srcParseMessage", "internalParsedJson.parseMessage"}, {"srcNewInternal", "newInternalParsedJson"}} {
+			fd := p.funcs[fn.name]
+			if fd == nil {
+				die("function %s not found", fn.name)
+			}
+			var lines []string
+			for _, st := range fd.Body.List {
+				if es, ok := st.(*ast.ExprStmt); ok {
+					if c, ok := es.X.(*ast.CallExpr); ok {
+						if id, ok := c.Fun.(*ast.Ident); ok && id.Name == "verifEvent" {
+							continue
+						}
+					}
+				}
+				txt := src(st)
+				// drop hook lines and comments, squeeze white space
+				var keep []string
+				for _, l := range strings.Split(txt, "\n") {
+					t := strings.TrimSpace(l)
+					if t == "" || strings.HasPrefix(t, "//") || strings.HasPrefix(t, "verifEvent(") {
+						continue
+					}
+					if i := strings.Index(t, " //"); i >= 0 {
+						t = strings.TrimSpace(t[:i])
+					}
+					keep = append(keep, t)
+				}
+				lines = append(lines, strings.Join(keep, " "))
+			}
+			fmt.Fprintf(&b, "def %s : List String := %s\n\n", fn.lean, leanStrList(lines))
+		}
+	}
 	fmt.Fprintf(&b, "def goStatements : List String := %s\n\n", leanStrList(gos))
 	fmt.Fprintf(&b, "def poolSites : List String := %s\n\n", leanStrList(pools))
 	fmt.Fprintf(&b, "def ringRefs : List String := %s\n\n", leanStrList(ringRefs))
